@@ -16,13 +16,13 @@ def one_case(col: Collector, rng, index: int, prop: str, max_tasks: int, emphasi
         if r < 0.35:
             shape = rng.choice(["components", "isolated", "empty", "chain", "wide"])
         allow_none = rng.random() < 0.06
-        reorder = rng.random() < 0.08
+        reorder = rng.random() < 0.2
     elif emphasis == "data":
         if r < 0.4:
             shape = rng.choice(["fanin", "diamond", "layered", "triangular"])
     else:
         allow_none = rng.random() < 0.04
-        reorder = rng.random() < 0.05
+        reorder = rng.random() < 0.15
     js = gen_jobspec(rng, max_tasks=rng.choice([4, 8, max_tasks]), shape=shape, allow_none=allow_none)
     if emphasis == "data" and js["order"]:
         # replication classes: requested outputs that are also consumed (possibly on other hosts), many consumers
